@@ -24,14 +24,14 @@ RunInit0 == /\ status = [s \in Stages |-> "W"] /\ gerr = [g \in Graphs |-> FALSE
 TInit == /\ TLCSet(1, 1) /\ l = 1
          /\ deps = [s \in Stages |-> {}] /\ cls = [s \in Stages |-> "OK"] /\ ncmd = [s \in Stages |-> 1] /\ failAt = [s \in Stages |-> 1]
          /\ nvar = [s \in Stages |-> 1] /\ ctx = Zs /\ hb = [s \in Stages |-> "none"] /\ ha = [s \in Stages |-> "none"]
-         /\ upFails = [c \in Ctxs |-> FALSE] /\ gr = Zs /\ inc = [s \in Stages |-> FALSE]
+         /\ upFails = [c \in Ctxs |-> FALSE] /\ tallow = [s \in Stages |-> FALSE] /\ gr = Zs /\ inc = [s \in Stages |-> FALSE]
          /\ RunInit0 /\ loop = FALSE
 TReset == /\ Is("cfg") /\ (IF l = 1 THEN TRUE ELSE Log[l - 1].e = "end") /\ Ev.n = N
           /\ deps' = [s \in Stages |-> ToSet(Ev.deps[s])] /\ cls' = [s \in Stages |-> Ev.cls[s]]
           /\ ncmd' = [s \in Stages |-> Ev.ncmd[s]] /\ failAt' = [s \in Stages |-> Ev.failAt[s]]
           /\ nvar' = [s \in Stages |-> Ev.nvar[s]] /\ ctx' = [s \in Stages |-> Ev.ctx[s]]
           /\ hb' = [s \in Stages |-> Ev.hb[s]] /\ ha' = [s \in Stages |-> Ev.ha[s]]
-          /\ upFails' = [c \in Ctxs |-> Ev.upFails[c]]
+          /\ upFails' = [c \in Ctxs |-> Ev.upFails[c]] /\ tallow' = [s \in Stages |-> Ev.tallow[s]]
           /\ gr' = [s \in Stages |-> Ev.gr[s]] /\ inc' = [s \in Stages |-> Ev.inc[s]]
           /\ status' = [s \in Stages |-> "W"] /\ gerr' = [g \in Graphs |-> FALSE] /\ loop' = TRUE
           /\ nl' = [s \in Stages |-> "none"] /\ by' = Zs /\ want' = [s \in Stages |-> {}] /\ twice' = FALSE
@@ -55,7 +55,10 @@ TRunExit == /\ Is("RunExit") /\ RunExit(Ev.s) /\ Consume
 \* be the one the run is at
 TCmdStart == /\ Is("CmdStart") /\ Ev.role \in {"tb", "cmd", "ta"} /\ NextOp(Ev.s) = Ev.role /\ CmdStart(Ev.s) /\ Consume
 TCmdEnd == /\ Is("CmdEnd") /\ Ev.role \in {"tb", "cmd", "ta"} /\ role[Ev.s] = Ev.role /\ CmdEnd(Ev.s)
-           /\ (Ev.err # "nil") = (IF Ev.role = "ta" THEN ha[Ev.s] = "fail" ELSE rfail'[Ev.s]) /\ Consume
+           /\ (Ev.err # "nil") = (CASE Ev.role = "ta" -> ha[Ev.s] = "fail"
+                                    [] Ev.role = "cmd" -> FailsNow(Ev.s)                                \* (tolerated or not)
+                                    [] OTHER -> rfail'[Ev.s])
+           /\ Consume
 \* a job of a context (up, before, after): executed on behalf of some run that is at that point
 \* (the log names the context, not the run)
 TCtxStart == /\ Is("CmdStart") /\ Ev.role \in {"up", "cb", "ca"}
